@@ -1,7 +1,7 @@
 CONSTANTS
-  MaxOps = 4
-  MaxModels = 4
-  Dump = FALSE
+  MaxOps = 3
+  MaxModels = 3
+  Dump = TRUE
   BaseNames = {"A", "B", "A_BAK1"}
   BadNames = {"1x"}
   NFiles = 2
